@@ -102,6 +102,18 @@ WATCHDOG_S = float(os.environ.get("VERIF_WATCHDOG_S", "30"))
 LINE_BUDGET = int(float(os.environ.get("VERIF_LINE_BUDGET", "4e7")))
 
 
+DEFAULT_RECURSION_LIMIT = 1000
+
+
+def _depth():
+    f = sys._getframe()
+    n = 0
+    while f is not None:
+        n += 1
+        f = f.f_back
+    return n
+
+
 def _alarm(signum, frame):
     raise HangTimeout()
 
@@ -132,6 +144,18 @@ def guarded(thunk, ctx=None, seconds=None):
     deterministic line budget: over budget => Violation('nontermination'); otherwise it
     was merely slow (counted)."""
     seconds = seconds or WATCHDOG_S
+    # Emulate a caller with a shallow stack: the library gets the interpreter's default 1000 frames counted from here,
+    # whatever the depth of the harness (Hypothesis raises the process-wide limit while it runs a test).
+    inner = thunk
+
+    def thunk():
+        old_limit = sys.getrecursionlimit()
+        sys.setrecursionlimit(DEFAULT_RECURSION_LIMIT + _depth())
+        try:
+            return inner()
+        finally:
+            sys.setrecursionlimit(max(old_limit, DEFAULT_RECURSION_LIMIT))
+
     if not hasattr(signal, "setitimer"):
         return thunk()
     old = signal.signal(signal.SIGALRM, _alarm)
@@ -357,11 +381,27 @@ Ctx.shrink_deadline = None
 # --------------------------------------------------------------------------
 # sharding
 
+TZ_ROTATION = ["America/New_York", "Asia/Kolkata", "Australia/Lord_Howe", "Pacific/Chatham", "UTC"]
+
+
+def set_process_tz(k):
+    """Time properties must hold whatever the local zone is; rotating the zone over the shards makes a reintroduced
+    local-time conversion visible to them (on a correct tree the zone has no effect - C18 checks exactly that)."""
+    z = TZ_ROTATION[k % len(TZ_ROTATION)]
+    if z != "UTC" and not os.path.exists(os.path.join("/usr/share/zoneinfo", z)):
+        return os.environ.get("TZ", "")
+    os.environ["TZ"] = z
+    time.tzset()
+    return z
+
+
 def _shard_entry(args):
     prop_id, tier, shard_seed, examples = args
     from vlib import registry
 
     prop = registry.load(prop_id)
+    if getattr(prop, "ROTATE_TZ", False):
+        set_process_tz(shard_seed % 1000)
     ctx = Ctx(prop_id, tier, shard_seed)
     t0 = time.time()
     try:
